@@ -72,7 +72,7 @@ REQUIRED = ["op:refine-normal", "op:refine-neighbour", "op:refine-permutation", 
             "boundary:overlap-at-margin", "boundary:merge-span-at-limit", "boundary:hmmer-overlap-at-limit",
             "boundary:docking-49/50", "out:merge", "drop:better-kept-conflict", "drop:incomplete-with-alternative",
             "filter_results:overlap-group", "filter_multiple:profile-with-copies", "exhaustive:sets",
-            "op:refine-real-biopython-objects", "op:ruleset-history"]
+            "op:refine-real-biopython-objects", "op:ruleset-history", "class:hits-below-their-profile-cutoff"]
 
 MAX_ALL_PERMS = 5
 RANDOM_PERMS = 10
@@ -599,7 +599,16 @@ def run_ruleset_history_case(ctx, case):
     from antismash.common.signature import HmmSignature
     hits, groups = case["hits"], case["groups"]
     profiles = sorted({h[1] for h in hits} | {p for g in groups for p in g})
-    signatures = {name: HmmSignature(name, name + " description", 1, "dummy.hmm") for name in profiles}
+    # every other profile has a cutoff that some of its hits do not reach: such hits are no hits at all (hmmsearch
+    # runs without --cut_tc, the cutoff is applied as the hits are read) and must not take part in the competition
+    cutoffs = {}
+    for position, name in enumerate(profiles):
+        scores = sorted(h[4] + 1 for h in hits if h[1] == name)
+        cutoffs[name] = scores[len(scores) // 2] if position % 2 and scores else 1
+    signatures = {name: HmmSignature(name, name + " description", cutoffs[name], "dummy.hmm") for name in profiles}
+    valid = [h for h in hits if h[4] + 1 > cutoffs[h[1]]]
+    if len(valid) < len(hits):
+        ctx.count("class:hits-below-their-profile-cutoff")
     rule = rule_parser.DetectionRule("any", "cat", 5000, 5000, rule_parser.SingleCondition(False, profiles[0]))
     try:
         base = Ruleset((rule,), signatures, "dummy.hmm", {"cat"}, "verif", equivalence_groups=[set(g) for g in groups])
@@ -607,7 +616,7 @@ def run_ruleset_history_case(ctx, case):
     except Exception as err:  # pylint: disable=broad-except
         ctx.violate("ruleset-history-crash", {"exception": type(err).__name__, "message": str(err)[:160], "stage": "build"}, case)
         return
-    expected = _as_sets(_call_filters(hits, groups)["after_multiple"][1])
+    expected = _as_sets(_call_filters(valid, groups)["after_multiple"][1]) if valid else {}
     genes = sorted({h[0] for h in hits})
     captured = {}
     real_find = cluster_prediction.find_hmmer_hits
